@@ -292,7 +292,7 @@ theorem inSem_ff_iff (x : Value) (vs : List Value) : inSem x vs = .ff ↔ ∀ v 
 theorem inSem_null_mem (x : Value) (vs : List Value) (h : Value.null ∈ vs) : inSem x vs ≠ .ff := by
   intro hf
   have := (inSem_ff_iff x vs).mp hf _ h
-  cases x <;> simp [cmp3] at this
+  cases x <;> simp [cmp3, cmpDb, Value.db] at this
 
 /-! ## the semantics consumes exactly the slots of a clause -/
 
